@@ -106,7 +106,7 @@ func (i *interpreter) ensureInit(pkg *ssa.Package) {
 	if pkg == nil || i.initState[pkg] != 0 {
 		return
 	}
-	if i.env.isStubPkg(pkg.Pkg.Path()) || noInitPkg(pkg.Pkg.Path()) {
+	if i.env.isStubPkg(pkg.Pkg.Path()) || noInitPkg(pkg.Pkg.Path()) || pkg.Pkg.Path() == i.env.RtPkgPath {
 		i.initState[pkg] = 2
 		return
 	}
@@ -117,12 +117,13 @@ func (i *interpreter) ensureInit(pkg *ssa.Package) {
 	if init := pkg.Func("init"); init != nil && init.Blocks != nil {
 		saved := i.px.inInit
 		i.px.inInit++
-		thirdParty := !strings.HasPrefix(pkg.Pkg.Path(), i.env.ModPath)
+		// generated clientset packages build a runtime.Scheme (reflection) like third-party code does
+		thirdParty := !strings.HasPrefix(pkg.Pkg.Path(), i.env.ModPath) || strings.Contains(pkg.Pkg.Path(), "/pkg/apis/client/clientset/")
 		failed := false
 		func() {
 			defer func() {
 				if r := recover(); r != nil {
-					if !thirdParty {
+					if !thirdParty && !strings.Contains(fmt.Sprint(r)+i.px.panicTrace, "apimachinery/pkg/runtime.Scheme") && !strings.Contains(fmt.Sprint(r)+i.px.panicTrace, "apimachinery/pkg/runtime.NewScheme") {
 						panic(r)
 					}
 					// A third-party initialiser that cannot be interpreted (reflection-built tables,
@@ -636,6 +637,12 @@ func fnPkg(fn *ssa.Function) *ssa.Package {
 // callSSA interprets a call to function fn with arguments args,
 // and lexical environment env, returning its result.
 func callSSA(i *interpreter, caller *frame, callpos token.Pos, fn *ssa.Function, args []value, env []value) value {
+	if caller != nil && fn.Name() == "init" && fn.Pkg != nil && fn == fn.Pkg.Func("init") && caller.fn != fn {
+		// a package initialiser calling the initialiser of an imported package: initialise that
+		// package on its own terms (failure of a reflection-heavy initialiser is recorded per package)
+		i.ensureInit(fn.Pkg)
+		return nil
+	}
 	fr := &frame{
 		i:      i,
 		caller: caller, // for panic/recover
